@@ -67,8 +67,8 @@ func (g *h2gen) prio(self uint32) string {
 	}
 	w := []int{0, 1, 15, 109, 200, 255}[g.r.intn(6)]
 	ex := g.r.intn(2)
-	if dep == 0 && w == 0 && ex == 0 {
-		w = 1
+	if dep == 0 && w == 0 && ex == 0 && g.r.chance(1, 2) {
+		w = 1 // (the all-zero block is kept half of the time: the harness writes it as a raw frame)
 	}
 	return fmt.Sprintf("%d_%d_%d", dep, ex, w)
 }
@@ -211,6 +211,15 @@ func init() {
 	})
 	register("h2fp", "server-level: accepted frame scripts against the real serverConn; handlers report Marshal(max)", func(c *ctx) {
 		c.deferred = true
+		// HEADERS whose PRIORITY flag is set over an all-zero priority block (dependency 0, not exclusive, weight byte 0),
+		// alone and between other priority-carrying frames
+		for _, fr := range []string{"S:,H:1.1.0_0_0.mspa.0", "S:,H:1.1.0_0_0.msp.0,P:3.0.0.0,H:3.1.0_0_0.mspa.1,H:5.1.3_1_200.mspa.0,H:7.1.-.mspa.0"} {
+			for _, max := range []string{"10000", "0", "1", "18446744073709551615"} {
+				c.tag("zero-priority-block")
+				c.op("h2fp max=" + max + " frames=" + fr)
+				c.op("h2fpm max=" + max + " frames=" + fr)
+			}
+		}
 		for i := 0; i < c.count; i++ {
 			r := c.rng.fork()
 			g := &h2gen{r: r, nextID: 1}
